@@ -239,7 +239,7 @@ impl Prop for SharedEngine {
         "shared-engine".into()
     }
     fn rule(&self) -> String {
-        "engine (generated voice 90 % - a third of them as a SET of 2..4 same-metadata voices with non-uniform interpolation weights -, bundled/perturbed 10 %) with a generated in-envelope condition; 2..16 jobs with their own label lists (1..6 labels), each either synthesize or a generator consumed in chunks then finished; all jobs run concurrently on ONE shared &Engine (scoped threads, barrier, generated per-thread spin stagger) and must be bit-identical to the sequential reference; also: repeat, clone, interleaving with a half-consumed live generator, getters unchanged by every call, and a second engine that reaches the same final setter values through a generated detour in a generated order gives equal getters and waveform. Non-trivial: >= 2 threads running different utterances concurrently".into()
+        "engine (generated voice 90 % - a third of them as a SET of 2..4 same-metadata voices with non-uniform interpolation weights -, bundled/perturbed 10 %) with a generated in-envelope condition; 2..16 jobs with their own label lists (1..6 labels), each either synthesize or a generator consumed in chunks then finished; all jobs run concurrently on ONE shared &Engine (scoped threads, barrier, generated per-thread spin stagger) and must be bit-identical to the sequential reference; also: repeat, clone, interleaving with a half-consumed live generator, getters unchanged by every call, and a second engine that reaches the same final setter values through a generated detour in a generated order gives equal getters and waveform; a clone of the used engine whose volume and beta are changed renders like a separately built engine with those values while the original is unaffected. Non-trivial: >= 2 threads running different utterances concurrently".into()
     }
     fn tape_len(&self, _: Tier) -> usize {
         14000
@@ -419,6 +419,27 @@ impl Prop for SharedEngine {
         let w2 = run_job(&other, &c.jobs[0]).map_err(|e| Failure::new("synthesize-error", e))?;
         if let Some(i) = bits_equal(&w2, &reference[0]) {
             fail!("history-dependence", "two engines with equal settings reached through different setter histories differ at sample {}", i);
+        }
+        // (e) a clone of a USED engine is an independent engine: settings changed on the clone take
+        // effect on the clone (like on a fresh engine brought to the same values) and only there
+        {
+            let mut cl = engine.clone();
+            let new_volume = if c.cond.volume_db == 6.0 { -6.0 } else { 6.0 };
+            let new_beta = if c.cond.beta == 0.3 { 0.1 } else { 0.3 };
+            cl.condition.set_volume(new_volume);
+            cl.condition.set_beta(new_beta);
+            other.condition.set_volume(new_volume);
+            other.condition.set_beta(new_beta);
+            let wc = run_job(&cl, &c.jobs[0]).map_err(|e| Failure::new("synthesize-error", e))?;
+            let wo = run_job(&other, &c.jobs[0]).map_err(|e| Failure::new("synthesize-error", e))?;
+            if let Some(i) = bits_equal(&wc, &wo) {
+                fail!("clone-not-independent", "a clone of a used engine with volume and beta changed renders differently from a separately built engine with the same values (sample {})", i);
+            }
+            let again = run_job(&engine, &c.jobs[0]).map_err(|e| Failure::new("synthesize-error", e))?;
+            if let Some(i) = bits_equal(&again, &reference[0]) {
+                fail!("clone-not-independent", "changing settings on a clone changed what the original engine renders (sample {})", i);
+            }
+            ensure!(observe(&engine) == before, "engine-mutated", "setters on a clone changed the original engine's observable settings");
         }
         let mut rep = Report::new();
         let distinct = c.jobs.iter().map(|j| &j.labels).collect::<std::collections::HashSet<_>>().len();
